@@ -89,7 +89,9 @@ def check(program: Program, run: Run) -> None:
     for bn in BUILDER_CLASSES:
         bc = program.cls(bn)
         attrs = dict(kinds["SELECT"])
-        attrs.update(dialect_init_consts(bc))
+        # state that cannot be set on a SELECT (each entry is protected by a C14 guard): RETURNING needs INSERT/UPDATE/DELETE
+        if "_returns" in dialect_init_consts(bc):
+            attrs["_returns"] = dialect_init_consts(bc)["_returns"]
         attrs["_on_conflict"] = Const(False)
         sk, _ = render(program, bc, attrs=attrs, ctx=CtxV.incoming(False))
         sk = peel(sk)
